@@ -67,30 +67,44 @@ End Reach.
 Definition is_rebuild (o : mop) : bool := match o with MRebuild _ _ => true | _ => false end.
 
 Ltac mstep_cases :=
-  unfold m_step, e_with;
+  unfold m_step, measure_write, e_with;
   repeat (match goal with |- context [match ?c with _ => _ end] => destruct c eqn:? end).
 
 Lemma m_step_stale_stays : forall e o, e_stale e = true -> is_rebuild o = false ->
-  e_stale (m_step e o) = true /\ e_types (m_step e o) = e_types e.
+  e_stale (m_step e o) = true /\ e_types (m_step e o) = e_types e /\ e_label (m_step e o) = e_label e.
 Proof.
-  intros e o Hs Hr. destruct o as [ty|prop node v|prop node|fresh el]; try discriminate;
+  intros e o Hs Hr. destruct o as [ty|prop node v|prop node|lab|fresh el]; try discriminate;
     mstep_cases; cbn; auto.
 Qed.
 
 Lemma usable_stale : forall e, e_stale e = true -> usable e = false.
 Proof. intros e H. unfold usable. rewrite H. destruct (e_index e); reflexivity. Qed.
 
+Lemma stale_run : forall ops e0, e_stale e0 = true ->
+  forallb (fun o => negb (is_rebuild o)) ops = true ->
+  usable (fold_left m_step ops e0) = false.
+Proof.
+  intros ops e0 H0 Hops. apply usable_stale. revert e0 H0.
+  induction ops as [|o ops IH]; intros e0 H0; cbn; auto.
+  cbn in Hops. apply andb_true_iff in Hops as [Ho Hops]. apply negb_true_iff in Ho.
+  apply IH; auto. apply m_step_stale_stays; auto.
+Qed.
+
 Theorem stale_until_rebuild : forall e ty ops,
   memn ty (e_types e) = true ->
   forallb (fun o => negb (is_rebuild o)) ops = true ->
   usable (fold_left m_step ops (m_step e (MEdgeWrite ty))) = false.
 Proof.
-  intros e ty ops Hty Hops. apply usable_stale.
-  assert (H0 : e_stale (m_step e (MEdgeWrite ty)) = true) by (cbn; rewrite Hty; reflexivity).
-  revert H0. generalize (m_step e (MEdgeWrite ty)) as e0.
-  induction ops as [|o ops IH]; intros e0 H0; cbn; auto.
-  cbn in Hops. apply andb_true_iff in Hops as [Ho Hops]. apply negb_true_iff in Ho.
-  apply IH; auto. apply m_step_stale_stays; auto.
+  intros e ty ops Hty Hops. apply stale_run; auto. cbn. rewrite Hty. reflexivity.
+Qed.
+
+(* a node gaining or losing the measure label takes the index out of service until a rebuild *)
+Theorem label_write_stale_until_rebuild : forall e l ops,
+  e_label e = Some l ->
+  forallb (fun o => negb (is_rebuild o)) ops = true ->
+  usable (fold_left m_step ops (m_step e (MLabelWrite l))) = false.
+Proof.
+  intros e l ops Hl Hops. apply stale_run; auto. cbn. rewrite Hl, Nat.eqb_refl. reflexivity.
 Qed.
 
 Theorem rebuild_clears : forall e fresh el,
@@ -101,7 +115,7 @@ Theorem unrelated_write_is_noop : forall e ty, memn ty (e_types e) = false ->
   m_step e (MEdgeWrite ty) = e.
 Proof. intros e ty H. cbn. rewrite H. reflexivity. Qed.
 
-(* ---- measure writes keep the index's measure equal to the graph's, outside the known class ---- *)
+(* ---- measure writes keep the index's measure equal to the graph's ---- *)
 Definition rebuild_ok (o : mop) : bool :=
   match o with
   | MRebuild (Some ix) _ => match ix_measure ix with Some _ => true | None => false end
@@ -114,44 +128,54 @@ Proof.
   exists ix; split; auto. destruct (e_stale e); [discriminate|reflexivity].
 Qed.
 
-Lemma synced_step : forall e g o, synced e g -> rebuild_ok o = true -> removes_measure_at e o = false ->
+Lemma synced_write : forall e g prop node v, synced e g ->
+  synced (measure_write e prop node v)
+         (match e_prop e with
+          | Some pr => if Nat.eqb pr prop && eligible e node then upd g node v else g
+          | None => g
+          end).
+Proof.
+  intros e g prop node v S. unfold synced in *. unfold measure_write.
+  destruct (e_prop e) as [pr|]; auto.
+  destruct (Nat.eqb pr prop); cbn [andb]; auto.
+  destruct (e_index e) as [ix|] eqn:Ei.
+  - destruct (node <? pn (ix_poset ix)).
+    + destruct (eligible e node).
+      2:{ intros U. destruct (S U) as [ix0 [E3 E4]]. try rewrite Ei in E3. inversion E3; subst ix0.
+          exists ix; split; auto. }
+      unfold update_measure. destruct (ix_measure ix) as [m|] eqn:Em.
+      * intros U. apply usable_inv in U as [ix' [E1 E2]]. cbn in E1, E2.
+        destruct S as [ix0 [E3 E4]]; [unfold usable; rewrite Ei, E2; reflexivity|].
+        try rewrite Ei in E3. inversion E3; subst ix0. rewrite Em in E4. inversion E4; subst m.
+        eexists; split; [cbn; reflexivity|]. reflexivity.
+      * intros U. apply usable_inv in U as [ix' [_ U]]. discriminate.
+    + intros U. apply usable_inv in U as [ix' [_ U]]. discriminate.
+  - intros U. apply usable_inv in U as [ix' [U _]]. discriminate.
+Qed.
+
+Lemma synced_step : forall e g o, synced e g -> rebuild_ok o = true ->
   synced (m_step e o) (g_step e g o).
 Proof.
-  intros e g o S Hr Hk. unfold synced in *.
-  destruct o as [ty|prop node v|prop node|fresh el].
-  - (* edge write *) cbn [m_step g_step]. destruct (memn ty (e_types e)); auto.
+  intros e g o S Hr.
+  destruct o as [ty|prop node v|prop node|lab|fresh el].
+  - (* edge write *) unfold synced in *. cbn [m_step g_step]. destruct (memn ty (e_types e)); auto.
     intros U. apply usable_inv in U as [ix [_ U]]. discriminate.
-  - (* measure write *)
-    cbn [m_step g_step]. destruct (e_prop e) as [pr|]; auto.
-    destruct (Nat.eqb pr prop); cbn [andb]; auto.
-    destruct (e_index e) as [ix|] eqn:Ei.
-    + destruct (node <? pn (ix_poset ix)).
-      * destruct (eligible e node).
-        2:{ intros U. destruct (S U) as [ix0 [E3 E4]]. try rewrite Ei in E3. inversion E3; subst ix0.
-            exists ix; split; auto. }
-        unfold update_measure. destruct (ix_measure ix) as [m|] eqn:Em.
-        -- intros U. apply usable_inv in U as [ix' [E1 E2]]. cbn in E1, E2.
-           destruct S as [ix0 [E3 E4]]; [unfold usable; rewrite Ei, E2; reflexivity|].
-           try rewrite Ei in E3. inversion E3; subst ix0. rewrite Em in E4. inversion E4; subst m.
-           eexists; split; [cbn; reflexivity|]. reflexivity.
-        -- intros U. apply usable_inv in U as [ix' [_ U]]. discriminate.
-      * intros U. apply usable_inv in U as [ix' [_ U]]. discriminate.
-    + intros U. apply usable_inv in U as [ix' [U _]]. discriminate.
-  - (* property removal: not the measure (or an ineligible node) *)
-    cbn [m_step g_step]. unfold removes_measure_at in Hk.
-    destruct (e_prop e) as [pr|]; auto. rewrite Hk. auto.
-  - (* rebuild *)
+  - (* measure write *) cbn [m_step g_step]. apply synced_write; auto.
+  - (* property removal = write of Null *) cbn [m_step g_step]. apply synced_write; auto.
+  - (* label write *) unfold synced in *. cbn [m_step g_step]. destruct (e_label e) as [l|]; auto.
+    destruct (Nat.eqb l lab); auto. intros U. apply usable_inv in U as [ix [_ U]]. discriminate.
+  - (* rebuild *) unfold synced in *.
     cbn [m_step g_step]. intros U. destruct fresh as [ix|]; [|discriminate].
     cbn in Hr. destruct (ix_measure ix) as [m|] eqn:Em; [|discriminate].
     exists ix; split; auto.
 Qed.
 
 Theorem measure_synced : forall ops e g, synced e g ->
-  forallb rebuild_ok ops = true -> Known_C28 e ops = false ->
+  forallb rebuild_ok ops = true ->
   synced (fst (mg_run e g ops)) (snd (mg_run e g ops)).
 Proof.
-  induction ops as [|o ops IH]; intros e g S Hr Hk; cbn [mg_run fst snd]; auto.
-  cbn in Hr, Hk. apply andb_true_iff in Hr as [Hr1 Hr2]. apply orb_false_iff in Hk as [Hk1 Hk2].
+  induction ops as [|o ops IH]; intros e g S Hr; cbn [mg_run fst snd]; auto.
+  cbn in Hr. apply andb_true_iff in Hr as [Hr1 Hr2].
   apply IH; auto. apply synced_step; auto.
 Qed.
 
